@@ -186,8 +186,39 @@ def frame_check(call):
     return dict(fails=got != [[(1, 10), (2, 20)], [(3, 30), (4, 40)]], detail='depth-2 positional companions: %r' % (got,))
 
 
+def predicates_check(call):
+    """is_iterable / len0 on one value of every class of the value datatype (None, list, tuple, the four range-like kinds, dict, strings, other scalars):
+    is_iterable is True exactly for list / tuple / range-like / dict; len0 is len(x) for the sized containers and 0 for None, strings, scalars and zip objects"""
+    import datetime
+    from pyg_base._types import is_iterable
+    from pyg_base._loop import len0
+    d = {'a': 1, 'b': 2}
+    mk = [lambda: None, lambda: [], lambda: [1, 2], lambda: (), lambda: (1, 2, 3), lambda: range(0), lambda: range(4), lambda: d.keys(), lambda: d.values(),
+          lambda: zip([1, 2], [3, 4]), lambda: zip(), lambda: {}, lambda: dict(d), lambda: '', lambda: 'abc', lambda: 0, lambda: 5, lambda: 2.5, lambda: float('nan'),
+          lambda: True, lambda: datetime.datetime(2020, 1, 1), lambda: len]
+    bad = []
+    for f in mk:
+        v = f()
+        container = isinstance(v, (list, tuple, range, type(d.keys()), type(d.values()), zip, dict))
+        want_len = len(v) if container and not isinstance(v, zip) else 0
+        try:
+            got_it, got_len = is_iterable(f()), len0(f())
+        except Exception as e:      # noqa
+            bad.append('%r: raised %r' % (v, e))
+            continue
+        if got_it is not container:
+            bad.append('is_iterable(%r) = %r' % (v, got_it))
+        if got_len != want_len or isinstance(got_len, bool):
+            bad.append('len0(%r) = %r, expected %r' % (v, got_len, want_len))
+    which = call.get('kind')
+    bad = [b for b in bad if which is None or which in b or 'raised' in b] or []
+    return dict(fails=bool(bad), detail='; '.join(bad[:4]) or 'is_iterable / len0 agree with their contract on %d values' % len(mk))
+
+
 def replay(call):
     kind = call.get('kind')
+    if kind in ('is_iterable', 'len0'):
+        return predicates_check(call)
     fn = {'as_list': as_list_check, 'as_tuple_known': as_tuple_known, 'lens': lens_check, 'zipper': zipper_check, 'wrapped': wrapped_check,
           'item_by_i': item_by_check, 'item_by_key': item_by_check, 'frame': frame_check}.get(kind)
     if fn is None:
